@@ -111,7 +111,7 @@ func c01units(tier string) []mc.Unit {
 	for _, sp := range splits {
 		sp := sp
 		us = append(us, mc.Unit{Name: fmt.Sprintf("files/first-shape=%d/%d", sp.nf, sp.first), Weight: 100, Run: func(r *mc.Recorder) {
-			var cnt, nt int64
+			var cnt, nt, full80 int64
 			root := []int{0}
 			if sp.nf == 1 {
 				// Any("features", n) does not record a point when n == 1; here n = maxF+1 >= 3
@@ -154,6 +154,11 @@ func c01units(tier string) []mc.Unit {
 					}
 					if msg := gbCheckText(text); msg != "" {
 						panic("generator produced an inadmissible file: " + msg)
+					}
+					for _, ln := range strings.Split(text, "\n") {
+						if len(ln) == 80 && strings.HasPrefix(ln, strings.Repeat(" ", 21)) {
+							full80++
+						}
 					}
 					if api == 2 {
 						text = gbFlatHeader + text
@@ -210,6 +215,9 @@ func c01units(tier string) []mc.Unit {
 				st.Exhaustive = st.Exhaustive && s1.Exhaustive
 			}
 			r.AddExplore(st, "files")
+			if full80 > 0 {
+				r.Bound(fmt.Sprintf("full-width/%d/%d", sp.nf, sp.first), fmt.Sprintf("%d qualifier/location lines filling the field up to column 80", full80))
+			}
 			r.AddStates(cnt)
 			r.AddNontrivial(nt)
 			r.Bound("files", fmt.Sprintf("every feature list of length <=%d over 13 feature shapes x every assignment of the other dimensions with at most 2 deviations (sequence length %v, locus name, molecule type, topology, division/date, DEFINITION wrap, KEYWORDS, ORGANISM lineage, 0/1/2/5 references in 4 styles, COMMENT/DBLINK, 1/2/3/5 records, Parse/ParseMulti/ParseFlat, final newline)", maxF, lengths))
